@@ -45,6 +45,7 @@ JoinStr(ss, sep, i) == IF i > Len(ss) THEN "" ELSE IF i = Len(ss) THEN ss[i] ELS
 RECURSIVE Canon(_)
 Canon(t) ==
   CASE t.k = "id" -> t.v
+    [] t.k = "ref" -> "`" \o t.v \o "`"             \* a bound select-field name: always quoted, so that it reads back as that name
     [] t.k = "num" -> t.v
     [] t.k = "str" -> "'" \o t.v \o "'"
     [] t.k = "key" -> "KEY"
@@ -83,7 +84,7 @@ Tree(items) ==
 \* the token rendering of a flat sequence with no parentheses at all (operands rendered canonically)
 RECURSIVE OperandToks(_), ListToks(_, _), FullToks(_)
 OperandToks(x) ==
-  CASE x.k \in {"id", "num", "bool"} -> <<Tk(x.k, x.v)>>
+  CASE x.k \in {"id", "num", "bool", "ref"} -> <<Tk(x.k, x.v)>>
     [] x.k = "str" -> <<Tk("str", x.v)>>
     [] x.k = "key" -> <<Tk("kw", "key")>>
     [] x.k = "value" -> <<Tk("kw", "value")>>
@@ -146,6 +147,7 @@ RECURSIVE ParseBinary(_, _, _, _), ParseUnary(_, _), ParsePrimary(_, _), ParsePo
 ParseOperand(toks, i) ==
   LET k == At(toks, i) IN
   CASE k.t = "id" -> Ok(Leaf("id", k.v), i + 1)
+    [] k.t = "ref" -> Ok(Leaf("ref", k.v), i + 1)
     [] k.t = "num" -> Ok(Leaf("num", k.v), i + 1)
     [] k.t = "str" -> Ok(Leaf("str", k.v), i + 1)
     [] k.t = "bool" -> Ok(Leaf("bool", k.v), i + 1)
